@@ -108,7 +108,26 @@ def real_unit(unit, mods, pre_elaborated=False):
         return build.leaf_call(unit[1], 5)
     d = {"bundles": BUNDLES, "modules": list(mods), "top": mods[-1]["name"]}
     top = build.build(d).top
-    if pre_elaborated:
+    if pre_elaborated == "below-failed-parent":
+        # the unit was instantiated by ANOTHER design whose elaboration failed late (after bundles were flattened, in the array
+        # pass): the unit has been flattened in place, but no elaboration of it ever completed
+        import hdl21 as h
+
+        P = h.Module(name=f"C19FailedParent{next(build._counter)}")
+        conns = {}
+        for name, port in top.ports.items():
+            conns[name] = P.add(h.Signal(width=port.width), name=f"s_{name}")
+        for name, port in top.bundle_ports.items():
+            conns[name] = P.add(h.BundleInstance(of=port.of), name=f"b_{name}")
+        P.add(h.Instance(of=top)(**conns), name="u")
+        P.add(h.Signal(width=3), name="three")
+        P.add(2 * h.R(r=1)(p=P.three, n=P.three), name="arr")
+        try:
+            h.elaborate(P)
+            raise AssertionError("harness: the failing parent elaborated")
+        except RuntimeError:
+            pass
+    elif pre_elaborated:
         import hdl21 as h
 
         h.elaborate(top)
@@ -183,7 +202,7 @@ def run(ctx, rec):
                     iname = "unitq_" if any(p.startswith("units_") for p in sp) else "units_"  # (reference instance names must be free)
                     ref = chain_spec(unit, mods, sp, bp, a, b, n, iname) if n > 1 else wrapper_spec(unit, mods, sp, bp)
 
-                    pre = unit[0] == "mod" and (n + len(a)) % 2 == 0
+                    pre = unit[0] == "mod" and [False, True, "below-failed-parent"][(n + len(a)) % 3]
                     case["unit_elaborated_before"] = pre
 
                     def make(unit=unit, mods=mods, a=a, b=b, n=n, form=form, pre=pre):
@@ -195,7 +214,7 @@ def run(ctx, rec):
         # Wrapper
         case = {"gen": "Wrapper", "unit": ulabel, "bundle_port": bool(bp)}
 
-        for pre in ((False, True) if unit[0] == "mod" else (False,)):
+        for pre in ((False, True, "below-failed-parent") if unit[0] == "mod" else (False,)):
             case = {"gen": "Wrapper", "unit": ulabel, "bundle_port": bool(bp), "unit_elaborated_before": pre}
 
             def makew(unit=unit, mods=mods, pre=pre):
@@ -203,7 +222,7 @@ def run(ctx, rec):
                 w.name = f"{w.name}_{next(build._counter)}"
                 return w
 
-            judge(rec, f"Wrapper({ulabel}{', elaborated before' if pre else ''})", case, makew, wrapper_spec(unit, mods, sp, bp))
+            judge(rec, f"Wrapper({ulabel}{', unit elaborated before: ' + str(pre) if pre else ''})", case, makew, wrapper_spec(unit, mods, sp, bp))
     # MosStack over drain / source
     for ulabel in ("MOS", "M4", "M5"):
         sp = dict(refsem.LEAVES[ulabel]["ports"])
